@@ -5,6 +5,7 @@ oracle (V_ss = V_ii = sum s^4/(sum s^2)^2, rates in [0,1])."""
 import cmath
 import math
 from vlib.common import *
+from props import c09_replaylib as RL
 
 TOL = Fraction(1, 10**9)      # the property's tolerance
 SLACK = 1e-9
@@ -85,6 +86,7 @@ def oracle(ctx, obs, max_py_cells):
     for c in [o for o in obs if o["kind"] == "harness_crash"]:
         ctx.violation("S5", "harness crashed", {"kind": "crash"}, c)
     for o in obs:
+        RL.cur(ctx, o)
         if o["kind"] == "single":
             n = o["n"]
             ctx.seen(("single", o["setup"], n, tuple(o["ls"] + o["li"] + o["taus"])))
@@ -276,6 +278,7 @@ def rarr(A):
 def correspondence(ctx, obs, max_n_q, max_goals):
     exprs, meta, goals, gmeta = [], {}, [], {}
     for o in obs:
+        RL.cur(ctx, o)
         if o["kind"] not in ("single", "pair") or "panic" in o["series"]:
             continue
         n = o["n"]
@@ -306,6 +309,7 @@ def correspondence(ctx, obs, max_n_q, max_goals):
                 goals.append((cid, f"Rabs (ts_rate_{k} ROps 2 {rec} (ts_phase_{k} {r1} {r2} {dt}) - {coq_hex(o['series'][k][1])}) <= 1e-9", "ts_case"))
                 gmeta[cid] = (o, k)
     for o in obs:
+        RL.cur(ctx, o)
         if o["kind"] != "pyth" or "panic" in o["series"]:
             continue
         A = carrs(o)
@@ -324,6 +328,7 @@ def correspondence(ctx, obs, max_n_q, max_goals):
     ctx.cov["obligations"] += len(exprs)
     for cid, _ in exprs:
         what, o = meta[cid]
+        RL.cur(ctx, o)
         txt = res.get(cid) or ""
         flags = re.findall(r"true|false", txt)
         if what == "pyth":
@@ -355,6 +360,7 @@ def correspondence(ctx, obs, max_n_q, max_goals):
         if ok or cid not in gmeta:
             continue
         o, k = gmeta[cid]
+        RL.cur(ctx, o)
         ctx.case_failures.append({"case": cid})
         ctx.violation("S4", f"real-valued model and hom_two_source_rate_series {k} = {fl(o['series'][k][1])!r} disagree beyond 1e-9 at tau={fl(o['taus'][1])!r} (2x2, {o['kind']})",
                       {"kind": "value", "channel": k}, {"case": cid, "kind": o["kind"], "tau": fl(o["taus"][1])}, found_input=False)
@@ -377,8 +383,22 @@ def unknown_failing(ctx):
     return any(v["found_input"] and match_finding(v, fs, ctx.prop) is None for v in ctx.violations)
 
 
+def replay_evaluate(ctx, obs):
+    oracle(ctx, obs, 24 ** 4)
+    if os.path.exists(os.path.join(COQ, "Model", "Hom2.vo")):
+        correspondence(ctx, [o for o in obs if o.get("n", 99) <= 6], 6, 12)
+
+
 def run(ctx):
     binp = build_harness(ctx)
+    RL.install(ctx)
+    if getattr(ctx, "replay", None):
+        status = RL.replay(ctx, binp, "C10", ["hom", "pm_integrand", "grid"], replay_evaluate)
+        if status is not None:
+            return status
+        ctx.violations.clear()
+        ctx.proof_failures.clear()
+        ctx.cov["obligations"] = ctx.cov["discharged"] = 0
     msgs, spans = regen(ctx, ["hom", "pm_integrand", "grid"])
     ctx.cov["translated_spans"] = {k: v for k, v in spans.items() if "hom" in v["file"]}
     for m in msgs:
@@ -387,12 +407,13 @@ def run(ctx):
     quick = ctx.tier == "quick"
     ncases, max_side, npairs, npyth, nforced = (28, 10, 12, 36, 1) if quick else (100, 24, 36, 120, 2)
     # corpus of inputs that violated the property text before (the witness of Findings/C10_si_range.v), then the generated cases
-    obs = run_harness(ctx, binp, ["c10", "corpus"]) + run_harness(ctx, binp, ["c10", ctx.seed, ncases, max_side, npairs, npyth, nforced])
+    obs = RL.harvest(ctx, binp, ["c10", "corpus"]) + RL.harvest(ctx, binp, ["c10", ctx.seed, ncases, max_side, npairs, npyth, nforced])
     oracle(ctx, obs, 16**4 if quick else 24**4)
     okf, ffails, _ = coq_build(ctx, ["Findings/C10_si_range.vo"])
     if not okf:
         ctx.note("finding C10_si_range: the refuted lemma no longer compiles (not an obligation of the property)")
     for o in [x for x in obs if x["kind"] == "single"][:2]:
+        RL.cur(ctx, o)
         if "panic" not in o["series"] and "panic" not in o["vis"]:
             ctx.sample({"setup": o["setup"], "n": o["n"], "axes_mode": o["mode"], "v_ss": fl(o["vis"]["ss"][1]), "v_ii": fl(o["vis"]["ii"][1]),
                         "purity_sv": (fl(o["sv4"]) / fl(o["sv2"]) ** 2) if o.get("sv2") else None, "rates_tau0": [fl(o["series"][k][0]) for k in NAMES]})
@@ -403,7 +424,7 @@ def run(ctx):
     if (not proved or ctx.case_failures) and not unknown_failing(ctx):
         ctx.log("S5 deep search for a failing input (obligations broken or model/implementation disagree)")
         for k in range(3):
-            obs2 = run_harness(ctx, binp, ["c10", ctx.seed + 7919 * (k + 1), 64, 8, 0])
+            obs2 = RL.harvest(ctx, binp, ["c10", ctx.seed + 7919 * (k + 1), 64, 8, 0])
             oracle(ctx, obs2, 0)
             if unknown_failing(ctx):
                 break
